@@ -110,3 +110,18 @@ package agent
 //@ func (*iterator_).ToSlot
 //@   props C17
 //@   implements IteratorLike.ToSlot
+
+// ---------------------------------------------------------------- collator as seen by its clients
+// (the collator's own correctness is C07/C08; clients rely on these two specification functions)
+
+//@ iface CollatorClassLike.Make
+//@   nopanic
+//@   ensures fresh(result) && result != nil
+//@ iface CollatorLike.CompareValues
+//@   trusted
+//@   nopanic
+//@   ensures result <==> ceq(first, second)
+//@ iface CollatorLike.RankValues
+//@   trusted
+//@   nopanic
+//@   ensures result == rank(this, first, second)
